@@ -372,6 +372,20 @@ example : (ExStore.s4.res 0).kind = .store :=
 example : (ExStore.s0.res 0).items ++ putItems ExStore.s4 0 = [7, 5, 9] ∧
     gotItems ExStore.s4 0 ++ (ExStore.s4.res 0).items = [7, 5, 9] := by decide +kernel
 
+/-! ### b-conserve: the domain hypothesis is neither vacuous nor dispensable
+
+* a program that calls `succeed` on a *plain* event and then uses a container is inside the domain (`stepOK` is
+  decidable: `Lemmas/ConserveDecide.lean`), and conservation holds for its run;
+* a program that calls `succeed` on its own waiting `ContainerPut(20)` is outside the domain, and for that run the
+  conservation equation is indeed false in the model (level 1, "granted" puts 20): the hypothesis cannot be dropped. -/
+example : WF ExSucceed.s0 ∧ (∀ e, isReq ExSucceed.s0 e = false) ∧ SafeReach ExSucceed.body 5 ExSucceed.s0 ExSucceed.s1 :=
+  ⟨ExSucceed.wf0, ExSucceed.noReq0, ExSucceed.reach⟩
+example : (ExSucceed.s1.res 0).level = 4 ∧ amountSum ExSucceed.s1 (grantedPuts ExSucceed.s1 0) = 3 ∧
+    grantedGets ExSucceed.s1 0 = [] := by decide +kernel
+example : ¬ stepOK ExBad.body 5 ExBad.s0 := by decide +kernel
+example : (ExBad.s0.res 0).level = 1 ∧ (ExBad.s1.res 0).level = 1 ∧ amountSum ExBad.s1 (grantedPuts ExBad.s1 0) = 20 ∧
+    grantedGets ExBad.s1 0 = [] := by decide +kernel
+
 /-! ## ===== b-conserve — END ===== -/
 
 end C07
